@@ -420,7 +420,13 @@ def c03_one(rec, case):
                 e4[j] = abs(E / F) / math.log(10.)
                 fl4[j] = 4
         _, i4 = _fit_any(mode, fluxes, wav, dist, k, pkg.make_source('src', fl4, f4, e4), lo, hi)
-        ok &= rec.expect(_same_fit(info, i4, tol=1e-9), 'flag4_equals_flag1', 'flag-4 points with the transformed values do not fit identically', case)
+        if mode == '3d' and sum(1 for f in flags if f in (1, 4)) < 2:
+            # one fitted point: A_V absorbs it at EVERY trial distance, chi^2 is 0 on the whole grid and the reported
+            # distance is an arbitrary tie-break at round-off level; only the chi^2 values are determined
+            same4 = close(np.sort(np.asarray(info.chi2, dtype=float)), np.sort(np.asarray(i4.chi2, dtype=float)), 1e-9, 1e-9)
+        else:
+            same4 = _same_fit(info, i4, tol=1e-9)
+        ok &= rec.expect(same4, 'flag4_equals_flag1', 'flag-4 points with the transformed values do not fit identically', case)
     return ok
 
 
